@@ -1,4 +1,3 @@
-CONSTANTS Part = "all" MaxMult = 3 Rich = TRUE
+CONSTANTS Part = "all" MaxMult = 3 Rich = TRUE Check = TRUE
 SPECIFICATION Spec
-INVARIANT SelfConsistent
 CHECK_DEADLOCK FALSE
